@@ -353,6 +353,10 @@ func (d *DBFT[H]) onPrepareRequest(msg ConsensusPayload[H]) {
 	d.processMissingTx()
 	d.updateExistingPayloads(msg)
 	d.PreparationPayloads[msg.ValidatorIndex()] = msg
+	if d.isAntiMEVExtensionEnabled() {
+		// PreBlock can be built only now, with PrepareRequest stored.
+		d.verifyPreCommitPayloadsAgainstPreBlock()
+	}
 
 	if !d.hasAllTransactions() || !d.createAndCheckBlock() || d.Context.WatchOnly() {
 		return
